@@ -127,6 +127,9 @@ def main_process_paths(shape, placement):
         text = shape
     elif placement == 'top':
         text = PRELUDE + shape + '\n(check-sat)\n'
+    elif placement == 'let':
+        # as the term of a let binding: collect_information infers its sort
+        text = PRELUDE + f'(assert (let ((v {shape})) (= v v)))\n(check-sat)\n'
     else:
         text = PRELUDE + f'(assert {shape})\n(check-sat)\n'
     bad = []
@@ -225,9 +228,10 @@ def shapes_worker(chunk):
     logging.disable(logging.CRITICAL)
     sys.stderr = io.StringIO()   # the Producer prints caught tracebacks
     out = []
-    for head, kids in chunk:
+    for head, kids, quick in chunk:
         sh_ = shape_text(head, kids)
-        for placement in ('top', 'assert'):
+        for placement in (('top', 'assert', 'let') if not quick or
+                          len(kids) <= 1 else ('top', 'assert')):
             bad, text = main_process_paths(sh_, placement)
             out.append((head, kids, placement, text, bad))
     return out
@@ -284,7 +288,8 @@ def main():
     rep = common.Report('C04', 'model_checking', a.tier)
     rep.cov['rule'] = (
         '(a) every shape of GenShapes.tla (special identifier x arity <= '
-        '2/3 x child shapes) at top level and inside an assert, replayed '
+        '2/3 x child shapes) at top level, inside an assert and as the term '
+        'of a let binding, replayed '
         'through the unguarded main-process code paths; (b) every situation '
         'of Main.tla (fault x entry point x strategy) through the real CLI; '
         '(c) sampled shapes end to end; (d) every command of GenEdits.tla '
@@ -305,6 +310,10 @@ def main():
         sits.append({'fault': st['fault'], 'entry': st['entry'],
                      'strategy': st['strategy'], 'outcome': st['outcome'],
                      'status': st['status']})
+    _t0 = time.time()
+    def _lap(what):
+        if os.environ.get('VERIF_DEBUG'):
+            print(f'[lap] {what}: {time.time() - _t0:.1f}s', file=sys.stderr)
     # ---- model: shapes ------------------------------------------------------
     heads = collect_heads()
     hpath = os.path.join(common.subscratch('shapes'), 'ShapeHeads.tla')
@@ -326,11 +335,12 @@ def main():
     if os.environ.get('VERIF_C04_ONLY') == 'usage':
         shapes = shapes[:5]
     if a.tier == 'quick' and not a.replay:
-        # all heads with arity <= 1; arity 2 for a seeded third of the heads
-        keep = set(r.sample(heads, max(1, len(heads) // 3)))
+        # all heads with arity <= 1; arity 2 for a seeded sixth of the heads
+        keep = set(r.sample(heads, max(1, len(heads) // 6)))
         shapes = [s for s in shapes if len(s[1]) <= 1 or s[0] in keep]
-    chunks = [shapes[i::48] for i in range(48)]
-    with multiprocessing.get_context('fork').Pool(12) as pool:
+    qk = a.tier == 'quick'
+    chunks = [[(h, k, qk) for h, k in shapes[i::64]] for i in range(64)]
+    with multiprocessing.get_context('fork').Pool(common.NCPU) as pool:
         res = pool.map(shapes_worker, chunks)
     nshape = 0
     for ch in res:
@@ -347,6 +357,7 @@ def main():
                     f'{shape_text(head, kids)!r} ({placement})',
                     {'head': head, 'kids': [list(k) for k in kids],
                      'text': text})
+    _lap('shapes')
     # ---- model: edited commands (GenEdits.tla) ------------------------------
     import semconform as SC
     cmds = set()
@@ -359,8 +370,8 @@ def main():
     cmds = sorted(cmds)
     if os.environ.get('VERIF_C04_ONLY') == 'usage':
         cmds = cmds[:5]
-    with multiprocessing.get_context('fork').Pool(12) as pool:
-        eres = pool.map(edits_worker, [cmds[i::48] for i in range(48)])
+    with multiprocessing.get_context('fork').Pool(common.NCPU) as pool:
+        eres = pool.map(edits_worker, [cmds[i::64] for i in range(64)])
     for ch in eres:
         for cmd, text, bad in ch:
             rep.count()
@@ -384,6 +395,7 @@ def main():
     rep.cov['special_identifiers'] = len(heads)
     rep.sample({'shape': shape_text(*shapes[len(shapes) // 2])
                 if shapes else None})
+    _lap('edits')
     # ---- (b) usage matrix through the CLI -------------------------------------
     from concurrent.futures import ThreadPoolExecutor
     with ThreadPoolExecutor(8) as ex:
@@ -427,6 +439,7 @@ def main():
                     f'expected a one-line diagnostic for {sit}, got '
                     f'{lines[:3]}', rp)
     rep.cov['usage_situations'] = len(sits)
+    _lap('usage')
     # ---- (c) end to end on sampled shapes ---------------------------------------
     import stratcheck as S
     n = 12 if a.tier == 'quick' else 200
